@@ -471,20 +471,26 @@ Definition mon_C14 (c : cfg) (tr : trace) : list failure :=
      | _ => [] end) tr.
 
 (* ---------- C16 ---------- *)
+(* the counting itself, on frames abstracted to (announced size if an envelope, length); MonFacts.v
+   proves it equal to the number of messages the reassembly of Frames.v completes *)
+Definition cm_step (st : option (N * N) * nat * bool) (f : option N * N) : option (N * N) * nat * bool :=
+  let '(cur, n, bad) := st in
+  if bad then st else
+  match f, cur with
+  | (Some sz, len), None => if sz <? len then (None, n, true) else if len =? sz then (None, S n, false) else (Some (sz, len), n, false)
+  | (None, len), Some (sz, got) => if sz <? got + len then (None, n, true) else if got + len =? sz then (None, S n, false) else (Some (sz, got + len), n, false)
+  | _, _ => (None, n, true)
+  end.
+Definition count_complete (frames : list (option N * N)) : nat :=
+  let '(_, n, _) := fold_left cm_step frames (None, O, false) in n.
+
 (* complete messages among the data frames of stream [tid] in direction [d] delivered no later than
-   action [upto] (size-level image of the reassembly of Frames.v) *)
+   action [upto] *)
 Definition complete_msgs (tid : N * Z) (d : dir) (upto : option N) (dl : list (N * dir * N * Z * fkind)) : nat :=
   let frames := flat_map (fun x => match x with (a, d', t, id, k) =>
       if dir_eqb d d' && N.eqb t (fst tid) && Z.eqb id (snd tid) && (match upto with Some u => a <=? u | None => true end)
       then match k with KMsg sz len => [(Some sz, len)] | KMore len => [(None, len)] | _ => [] end else [] end) dl in
-  let '(_, n, _) := fold_left (fun (st : option (N * N) * nat * bool) f =>
-      let '(cur, n, bad) := st in
-      if bad then st else
-      match f, cur with
-      | (Some sz, len), None => if sz <? len then (None, n, true) else if len =? sz then (None, S n, false) else (Some (sz, len), n, false)
-      | (None, len), Some (sz, got) => if sz <? got + len then (None, n, true) else if got + len =? sz then (None, S n, false) else (Some (sz, got + len), n, false)
-      | _, _ => (None, n, true)
-      end) frames (None, O, false) in n.
+  count_complete frames.
 
 Definition mon_C16_rpc (c : cfg) (tr : trace) (r : N) (sh : shape) : list failure :=
   let dl := deliveries tr in
